@@ -38,6 +38,7 @@ func runC04(c *Check) {
 	c.ruleNoMakeLenThenAppend("R7", "client", "spynode")
 	c.ruleConfirmedStateComplete("R8")
 	c.ruleNoWholeRecordOverwrite("R10")
+	c.ruleProofConversionTotal("R11")
 	// R9 the proof's codec: a stored / transmitted confirmation is decoded with the proof it was written with
 	if cp := c.P.CodecPkg("client"); cp != nil {
 		for _, pr := range codecPairsIn(cp, "Serialize", "Deserialize") {
